@@ -351,6 +351,9 @@ func checkCases(r *core.Run, voc *Vocab, cases []*Case, stats *stats) {
 			if c.Name == "witness-2" {
 				cfgs = []config{{"all", "none", "css"}}
 			}
+			if c.Name == "witness-3" {
+				cfgs = []config{{"off", "chrome50", "css"}}
+			}
 		}
 		w.text = voc.Render(c.Items, w.style)
 		for _, cfg := range cfgs {
@@ -828,6 +831,11 @@ func classify(c *Case, o *outcome, envIx int) string {
 		// :not(:is(.a,.b)) becomes `:not(.a), :not(.b)` (a union where an intersection is meant)
 		if c.NotAmp {
 			return "nesting-list-expansion-in-not"
+		}
+		// `&` inside :not() under a parent with a combinator: the lowered `:not(parent)` is a complex :not(), which
+		// the browsers of such a target reject with the whole rule, while other lowered rules of the sheet work there
+		if e := c.Envs[envIx]; c.NotAmpC && !e.has("not-list") && !e.has("is") && !e.has("nesting") {
+			return "nesting-not-amp-complex-parent"
 		}
 		if c.Mixed {
 			return "nesting-list-expansion-specificity"
